@@ -8,6 +8,10 @@ CHECKS = {
    text="Symbolic execution from MIR of amqp_url::decode, populate_host_and_port and open with the Url behind its accessors as a record of symbolic components (scheme, host?, port?, username, password?, path segments, query pairs): the resulting options must equal the component-wise reading (localhost / 5672 / 5671 defaults, guest rules, EXTERNAL overriding credentials, vhost rule, each numeric parameter, last value wins), the first offending component must yield its specific error, and the secure-only entry point must answer InsecureUrl for amqp without any connection attempt.",
    note="Url::parse (string to components) is the url crate's and trusted; percent decoding and integer parsing are uninterpreted functions of the component text; up to 2 path segments and 2 (thorough 3) query pairs. Decode counterexamples are replayed natively on a concrete URL built from the model.",
    ref="DESIGN.md §4 C19"),
+ 'C20': dict(
+   text="Bounded model checking of the main loop's real per-event dispatch (IoLoop::handle_steady_event with the channel-0, allocation, blocked-listener and per-channel handlers and the close arms of the dispatcher, from MIR): every ordered batch of up to N events containing one server close (connection or channel) plus wake-ups of channel 0, the allocation source, the blocked-listener source, the closed channel and another channel, with and without requests actually queued, from a two-channel Steady state: no event may panic or fail the I/O thread, and the effects must equal the serial order of the events (requests before the close take effect in order, nothing is written after a connection close, allocation answered, final state is the close).",
+   note="A poll batch is modelled as a fixed event list (mio semantics); real thread timing decides which batches occur, not what each batch does; the decoder is a stub delivering the close frame; client endpoints alive. Panics are replayed natively by driving the real handle_steady_event with mio::Event values.",
+   ref="DESIGN.md §4 C20"),
  'C02': dict(
    text="Bounded symbolic execution of the real publish path (Channel::basic_publish, ChannelHandle::send_content, IoLoopHandle send_content_header/body, OutputBuffer push + serialize, from MIR) with a body of symbolic 64-bit length, symbolic payload limit (frame_max-8 >= 4088 or unlimited), symbolic flags/strings: the messages handed to the I/O thread must be exactly Basic.Publish(ticket 0, exchange, routing key, mandatory, immediate as given), one header (class 60, body_size = len, the given properties) and body frames contiguous from offset 0, full except the last, never empty, never above the limit, summing to len, each alone in its message and on that channel; a second publish appends its own group after the first.",
    note="Chunk loop unrolled k times (len <= k x limit; exact multiples inside); byte encodings are amq-protocol's (frames are tracked as identities with payload ranges); counterexamples replayed natively by observation equality on a real Channel.",
